@@ -264,6 +264,14 @@ pub fn shaped_rule(cfg: &AspCfg) -> BoxedStrategy<asp::Rule> {
 /// 1 rule in 8: the body is (or starts with) the rule's own head atom under a sign
 /// (`p :- not p.`, `p(X) :- not not p(X), q(X).`, `{p} :- p.`): shapes that rewrites about a
 /// formula and its own negation / implication by itself are sensitive to
+fn has_interval(t: &asp::Term) -> bool {
+    match t {
+        asp::Term::BinaryOperation { op, lhs, rhs } => *op == asp::BinaryOperator::Interval || has_interval(lhs) || has_interval(rhs),
+        asp::Term::UnaryOperation { arg, .. } => has_interval(arg),
+        _ => false,
+    }
+}
+
 fn mirror_head(mut r: asp::Rule, k: u8) -> asp::Rule {
     if (3..6).contains(&k) {
         // 1 rule in 8: a body atom is repeated under another sign with the very same arguments
@@ -305,6 +313,17 @@ fn mirror_head(mut r: asp::Rule, k: u8) -> asp::Rule {
             if a.terms.len() >= 2 {
                 let n = a.terms.len();
                 let (from, to) = if k == 6 { (0, n - 1) } else { (n - 1, 0) };
+                // every other time the repeated argument is made many-valued (`t..t+1`, or `1..2` for a
+                // term that is not a number): the two occurrences then range independently
+                if k == 7 && !has_interval(&a.terms[from]) {
+                    let t = a.terms[from].clone();
+                    a.terms[from] = match &t {
+                        asp::Term::PrecomputedTerm(asp::PrecomputedTerm::Numeral(_)) | asp::Term::Variable(_) | asp::Term::BinaryOperation { .. } | asp::Term::UnaryOperation { .. } => {
+                            binop(asp::BinaryOperator::Interval, t.clone(), binop(asp::BinaryOperator::Add, t, num(1)))
+                        }
+                        _ => binop(asp::BinaryOperator::Interval, num(1), num(2)),
+                    };
+                }
                 a.terms[to] = a.terms[from].clone();
             }
         }
